@@ -59,6 +59,7 @@ type node struct {
 	site  bool   // forbidden-sink use site
 	key   string // site key
 	entry string // why it is an entry ("" = not an entry)
+	ext   map[string]bool // packages outside the module whose functions or variables this function uses
 	file  string // <import path>/<file name> of a declared function, as coverage profiles name it
 	l0    int    // first and last line of the declaration
 	l1    int
@@ -122,6 +123,12 @@ func (b *builder) newNode(name, pos string) *node {
 
 func inModule(p *types.Package) bool {
 	return p != nil && (p.Path() == module || strings.HasPrefix(p.Path(), module+"/"))
+}
+
+// isExtMethod: a method declared outside the module.
+func isExtMethod(o types.Object) bool {
+	f, ok := o.(*types.Func)
+	return ok && f.Pkg() != nil && !inModule(f.Pkg()) && f.Type().(*types.Signature).Recv() != nil
 }
 
 func sinkKind(o types.Object) string {
@@ -458,6 +465,12 @@ func main() {
 					from.succ[s.id] = true
 					return true
 				}
+				if o.Pkg() != nil && !inModule(o.Pkg()) && o.Parent() == o.Pkg().Scope() || isExtMethod(o) {
+					if from.ext == nil {
+						from.ext = map[string]bool{}
+					}
+					from.ext[o.Pkg().Path()] = true
+				}
 				switch o := o.(type) {
 				case *types.Func:
 					addFunc(o)
@@ -749,7 +762,21 @@ func main() {
 				}
 			}
 		}
+		extSet := map[string]bool{}
+		for _, n := range b.nodes {
+			if reach[n.id] {
+				for p := range n.ext {
+					extSet[p] = true
+				}
+			}
+		}
+		var exts []string
+		for p := range extSet {
+			exts = append(exts, p)
+		}
+		sort.Strings(exts)
 		enc.Encode(map[string]interface{}{
+			"external_packages_used": exts, // the frontier: bodies not followed by this (module-level) graph
 			"functions": fns,
 			"module_functions": len(b.nodes), "reachable": len(reach), "edges_from_reachable": nEdges,
 			"entries": ents, "sites": sites, "callers": b.nativeUse,
